@@ -251,6 +251,7 @@ func RenderFeature(f b6.Feature) (out string) {
 		case b6.FeatureTypeCollection:
 			if c, ok := f.(b6.CollectionFeature); ok {
 				sb.WriteString(" items=")
+				var keys []any
 				it := c.BeginUntyped()
 				for {
 					ok, err := it.Next()
@@ -262,6 +263,19 @@ func RenderFeature(f b6.Feature) (out string) {
 						break
 					}
 					sb.WriteString(renderGo(it.Key()) + "->" + renderGo(it.Value()) + " ")
+					keys = append(keys, it.Key())
+				}
+				// key lookups are queries too: the first value stored under each key
+				sb.WriteString(" lookups=")
+				seen := map[string]bool{}
+				for _, k := range keys {
+					rk := renderGo(k)
+					if seen[rk] {
+						continue
+					}
+					seen[rk] = true
+					v, ok := c.FindValue(k)
+					sb.WriteString(rk + "=>" + renderGo(v) + "," + strconv.FormatBool(ok) + " ")
 				}
 			} else {
 				sb.WriteString(" not-collection")
